@@ -51,6 +51,59 @@ def readerAux {μ : Type} (obf : Bool) (decode : Bytes → Option μ) : Nat → 
 def reader {μ : Type} (obf : Bool) (decode : Bytes → Option μ) (s : Bytes) : List (Event μ) :=
   readerAux obf decode (s.length + 1) s
 
+/-! ### Accepted connections: the first frame (network.py `on_peer_accepted`) -/
+
+inductive FirstRead
+  | eof                    -- nothing arrived before EOF
+  | readError              -- partial header / partial body
+  | frame (plainFrame : Bytes)
+deriving Repr, DecidableEq
+
+/-- `connection.receive_message()` for the first frame of an accepted connection -/
+def firstRead (obf : Bool) (s : Bytes) : FirstRead :=
+  if s.isEmpty then .eof
+  else if s.length < hdrSize obf then .readError
+  else
+    let hdr := s.take (hdrSize obf)
+    let n := frameLen obf hdr
+    let rest := s.drop (hdrSize obf)
+    if rest.length < n then (if rest.isEmpty then .eof else .readError)
+    else .frame (plain obf (hdr ++ rest.take n))
+
+inductive InitKind
+  | peerInit
+  | pierce (ticket : Nat)
+  | other                  -- decodable, but neither PeerInit nor PeerPierceFirewall
+deriving Repr, DecidableEq
+
+inductive CloseWhy | eof | readError | requested
+deriving Repr, DecidableEq
+
+inductive AcceptOutcome
+  | established
+  | closed (why : CloseWhy)
+deriving Repr, DecidableEq
+
+/-- what `on_peer_accepted` does with the connection, given the decoder for init frames and the
+tickets somebody waits for -/
+def acceptOutcome (obf : Bool) (decode : Bytes → Option InitKind) (tickets : List Nat) (s : Bytes) :
+    AcceptOutcome :=
+  match firstRead obf s with
+  | .eof => .closed .eof
+  | .readError => .closed .readError
+  | .frame f =>
+    match decode f with
+    | none => .closed .readError                       -- MessageDeserializationError → disconnect(READ_ERROR)
+    | some .peerInit => .established
+    | some (.pierce t) => if tickets.contains t then .established else .closed .requested
+    | some .other => .closed .requested
+
+/-- the registry of peer connections after the accepted connection `c` was handled -/
+def acceptRegistry (reg : List Nat) (c : Nat) (out : AcceptOutcome) : List Nat :=
+  match out with
+  | .established => reg ++ [c]
+  | .closed _ => (reg ++ [c]).filter (· ≠ c)
+
 /-- a frame on the wire: `serialize()` output = `le32 len ++ body`, obfuscated with `key` or not -/
 def wireFrame (key : Option Bytes) (body : Bytes) : Bytes :=
   match key with
